@@ -80,6 +80,24 @@ def pair_core():
     return out
 
 
+def memo_catalogue():
+    """Shapes in which the same expression node is reached at the same offset through different paths."""
+    out = []
+    def g(name, rules, **kw):
+        out.append(grammar("mm_" + name, rules, **kw))
+    # a labelled expression inside a rule that is entered twice so that the label's operand is answered from the memo
+    g("label", [rule("S", choice(act(seq(label("v", ref("T")), lit("x")), b_rec("s1")), act(seq(any_(), label("v", ref("T")), lit("y")), b_rec("s2")), act(star(any_()), b_rec("s3")))),
+                rule("T", act(seq(star(ref("A")), label("l", ref("B"))), b_rec("t"))),
+                rule("A", lit("a")), rule("B", lit("b"))], tags=["memo-label"])
+    # nested backtracking over a shared failing rule
+    g("nested", [rule("S", act(seq(label("e", ref("E")), not_(any_())), b_rec("s"))),
+                 rule("E", choice(seq(ref("T"), lit("+"), ref("E")), seq(ref("T"), lit("-"), ref("E")), ref("T"))),
+                 rule("T", choice(seq(lit("("), ref("E"), lit(")")), cls(ranges=[("0", "1")])))])
+    g("pred", [rule("S", act(seq(and_(ref("W")), not_(seq(ref("W"), lit("!"))), label("w", ref("W")), opt(lit("?"))), b_rec("s"))),
+               rule("W", plus(cls(ranges=[("a", "b")])))])
+    return out
+
+
 def composites():
     """Hand-written composites: predicates in repetition in choice, nested !&,
     case-insensitive multi-rune literals, classes with ranges/Unicode classes."""
@@ -114,6 +132,11 @@ def composites():
     out.append(grammar("c_plusstar", [
         rule("S", act(seq(label("x", plus(seq(lit("a"), star(lit("b"))))), label("y", star(choice(lit("c"), lit("d"))))), b_rec("s"))),
     ]))
+    out.append(grammar("c_icase2", [
+        rule("S", choice(act(seq(label("x", lit("a1*", i=True)), label("y", star(cls(chars=" )", ranges=[("0", "9")], i=True)))), b_rec("s1")),
+                         act(seq(label("z", lit("@\n", i=True)), opt(any_())), b_rec("s2")),
+                         act(label("w", star(cls(chars="\t_", inv=True, i=True))), b_rec("s3")))),
+    ], alphabet_extra="\t\x10\x11\x19\x0a*)1 `@"))
     out.append(grammar("c_display", [
         rule("S", act(seq(label("x", ref("Id")), lit("c")), b_rec("s")), display="start"),
         rule("Id", act(plus(cls(ranges=[("a", "b")])), b_text()), display="identifier"),
@@ -216,6 +239,22 @@ def state_catalogue():
     g("twokeys", lambda: seq(state(s_inc("k")), lit("a"), state(s_inc("j")), andcode(p_state("j", 1)), lit("b")))
     g("ginc", lambda: seq(act(lit("a"), b_ginc("gk")), state(s_inc("k")), lit("b")))
     g("actstate", lambda: act(seq(lit("a"), state(s_inc("k"))), b_rec("inner")))
+    # keys that do not exist when the parse starts: a key first written inside a
+    # region that is rolled back must be absent (zero) afterwards
+    def gf(name, x):
+        rules = [rule("S", choice(
+            act(seq(x(), lit("c"), andcode(p_state("j", 1))), b_rec("s1")),
+            act(seq(x(), lit("d"), andcode(p_state("j", 0))), b_rec("s2")),
+            act(seq(star(cls(ranges=[("a", "d")])), choice(andcode(p_state("j", 0)), andcode(p_state("j", 1)))), b_rec("s3"))))]
+        out.append(grammar("st_fresh_" + name, rules, noinit_keys=["j"]))
+    incj = lambda: state(s_inc("j"))
+    gf("seq", lambda: seq(incj(), lit("a"), lit("b")))
+    gf("cho", lambda: choice(seq(incj(), lit("a"), lit("b")), seq(lit("a"), opt(lit("b")))))
+    gf("and", lambda: seq(and_(seq(lit("a"), incj())), lit("a")))
+    gf("not", lambda: seq(not_(seq(incj(), lit("b"))), lit("a")))
+    gf("star", lambda: star(seq(incj(), lit("a"), lit("b"))))
+    gf("act", lambda: seq(act(lit("a"), b_amut("j")), opt(lit("b")), incj()))
+    gf("pred", lambda: seq(andcode(p_mut("j")), lit("a"), incj()))
     return out
 
 
@@ -316,6 +355,8 @@ def context_catalogue():
     g("unicode", [rule("S", act(seq(label("a", star(lit("é"))), label("b", act(opt(cls(ranges=[("a", "b")])), b_rec("tail")))), b_rec("s")))])
     g("inpred", [rule("S", act(seq(and_(act(label("p", any_()), b_rec("look"))), label("a", any_()), not_(act(label("q", lit("b")), b_rec("neg")))), b_rec("s")))])
     g("rules", [rule("S", act(seq(label("a", ref("A")), label("b", ref("A"))), b_rec("s"))), rule("A", act(label("v", cls(ranges=[("a", "b")])), b_rec("A")))])
+    g("mblit", [rule("S", act(seq(label("a", lit("aé")), label("b", star(act(cls(ranges=[("a", "b")]), b_rec("it")))), label("d", opt(lit("\n")))), b_rec("s")))])
+    g("mblit2", [rule("S", choice(act(seq(lit("é\né"), label("b", act(any_(), b_rec("after")))), b_rec("s1")), act(seq(label("x", any_()), label("y", star(act(any_(), b_rec("it"))))), b_rec("s2"))))])
     g("predctx", [rule("S", act(seq(label("a", ref("B")), lit("c"), andcode(p_const(True, "pt")), state(s_inc("k")), opt(lit("d"))), b_rec("s"))), rule("B", act(lit("ab"), b_rec("B")))])
     return out
 
@@ -364,6 +405,16 @@ def lr_catalogue():
     g("pred", [rule("S", act(seq(and_(ref("E")), label("e", ref("E")), label("rest", star(seq(lit(","), ref("E"))))), b_rec("s"))),
                rule("E", choice(act(seq(label("l", ref("E")), lit("+"), label("r", ref("N"))), b_rec("add")), ref("N")), lr=True),
                rule("N", num())])
+    # indirect: the cycle passes through another rule (Expr is the leader: smallest name)
+    g("indirect", [rule("S", act(seq(label("e", ref("Expr")), not_(any_())), b_rec("s"))),
+                   rule("Expr", choice(ref("Sum"), ref("N")), lr=True),
+                   rule("Sum", act(seq(label("l", ref("Expr")), cls(chars="+-"), label("r", ref("N"))), b_rec("sum"))),
+                   rule("N", num())])
+    g("indirect2", [rule("S", act(label("e", ref("E")), b_rec("s"))),
+                    rule("E", choice(ref("P"), ref("M"), ref("N")), lr=True),
+                    rule("P", act(seq(label("l", ref("E")), lit("+"), label("r", ref("N"))), b_rec("plus"))),
+                    rule("M", act(seq(label("l", ref("E")), lit("-"), label("r", ref("N"))), b_rec("minus"))),
+                    rule("N", num())])
     # suffix-only recursion (postfix operator)
     g("postfix", [rule("S", act(label("e", ref("E")), b_rec("s"))),
                   rule("E", choice(act(seq(label("l", ref("E")), lit("!")), b_rec("bang")), act(lit("0"), b_const("zero"))), lr=True)])
